@@ -138,6 +138,19 @@ Theorem c04_fixed_structures_refine :
   refines facs_spec any_ctor facs_new facs_step ser_flds.
 Proof. exact fixed_refines. Qed.
 
+(* The small public items outside the table components (component 32): sdt.rs GenericAddress::io_port_address / mmio_address
+   for an access type of 1, 2, 4 or 8 bytes, and the associated size functions.  On the reference's whole domain the model's
+   observations are the reference's, in both build profiles; the independent decoder returns the caller's values. *)
+From ACPI Require Import Impl.Misc Spec.MiscS Proofs.MiscP.
+Theorem c04_misc_refines : forall md c r, misc_ref c = Some r -> misc_case md c = r.
+Proof. exact misc_refines. Qed.
+
+Theorem c04_generic_address_decodes : forall space k addr r code,
+  gas_ref space k addr = Some r -> access_code k = Some code -> space < 256 -> addr < 2 ^ 64 ->
+  gas_decode r = Some (space, 8 * k, 0, code, addr).
+Proof. exact gas_ref_decodes. Qed.
+
+
 Print Assumptions c04_reference_layouts_decode.
 Print Assumptions c04_madt_structures.
 Print Assumptions c04_madt_refines.
@@ -154,3 +167,5 @@ Print Assumptions c04_hest_refines.
 Print Assumptions c04_pptt_refines.
 Print Assumptions c04_hmat_refines.
 Print Assumptions c04_slit_refines.
+Print Assumptions c04_misc_refines.
+Print Assumptions c04_generic_address_decodes.
